@@ -74,6 +74,7 @@ FirstBad(frames, i) ==
   IF i > Len(frames) THEN "none"
   ELSE LET f == frames[i] IN
        IF f.op = -1 THEN "junk"
+       ELSE IF f.op = -2 THEN "message_size"          \* a flood of continuation frames
        ELSE IF f.rsv # 0 THEN "rsv"
        ELSE IF IsCtl(f.op) /\ (f.enc # 7 \/ ~f.fin) THEN "control_header"
        ELSE IF f.len < 0 \/ f.len > Ev.max THEN "declared_length"
@@ -83,10 +84,12 @@ Cause == LET c == FirstBad(case.fr, 1) IN IF c = "none" /\ ~J.judged THEN "messa
 
 RunNoThrow == ~Ev.thrown
 RunBounded == Ev.feed = "d" => (Ev.peak <= Bound(Ev.max, Ev.maxseg) /\ Ev.alloc <= Bound(Ev.max, Ev.maxseg))
-RunWire == ~Ev.unreadable /\ Ev.strict /\ MaskOk(Ev.ep, Ev.outs) /\ Ev.acc
-RunClose == NoDataAfterClose(Ev.outs)
-RunMsgs == J.judged => InRange(Ev.msgs, J.msgs, J.cut)
-RunPongs == J.judged => InRange(PongsOf(Ev.outs), J.pongs, J.pcut)
+\* (quantified predicates are compared with TRUE so that TLC evaluates them as values; as conjuncts of an action it would
+\* expand the quantifiers recursively, one stack frame per element)
+RunWire == ~Ev.unreadable /\ Ev.strict /\ (MaskOk(Ev.ep, Ev.outs) = TRUE) /\ Ev.acc
+RunClose == NoDataAfterClose(Ev.outs) = TRUE
+RunMsgs == (J.judged => InRange(Ev.msgs, J.msgs, J.cut)) = TRUE
+RunPongs == (J.judged => InRange(PongsOf(Ev.outs), J.pongs, J.pcut)) = TRUE
 \* the same sequence for every segmentation and for both endpoints (only where the oracle leaves no latitude)
 RunSame == (J.judged /\ J.cut = -1 /\ ref.set) => Ev.msgs = ref.msgs
 KeepRef == ref' = IF J.judged /\ J.cut = -1 /\ ~ref.set THEN [set |-> TRUE, msgs |-> Ev.msgs] ELSE ref
@@ -115,8 +118,9 @@ DevRunNoUtf8 == /\ IsRun /\ RunNoThrow /\ RunBounded /\ RunWire /\ RunClose /\ ~
 
 (* ------------------------------------------------------------------------------------------------ script - *)
 IsScript == IsEv("Script") /\ case.k = "script"
-ScriptRest == ~Ev.thrown /\ ~Ev.unreadable /\ Ev.strict /\ MaskOk(Ev.ep, Ev.outs)
-EvScript == /\ IsScript /\ ScriptRest /\ NoDataAfterClose(Ev.outs)
+ScriptRest == ~Ev.thrown /\ ~Ev.unreadable /\ Ev.strict /\ (MaskOk(Ev.ep, Ev.outs) = TRUE)
+ScriptClose == NoDataAfterClose(Ev.outs) = TRUE
+EvScript == /\ IsScript /\ ScriptRest /\ ScriptClose
             /\ UNCHANGED <<case, ref>>
 \* which step made the endpoint send its first close frame: the application's own close (C, D) or the echo of the peer's
 RECURSIVE FirstCloser(_, _)
@@ -124,7 +128,7 @@ FirstCloser(steps, i) == IF i > Len(steps) THEN "none"
                          ELSE IF steps[i] \in {"C", "D"} THEN "user_close"
                          ELSE IF steps[i] \in {"rC", "rCg"} THEN "peer_close"
                          ELSE FirstCloser(steps, i + 1)
-DevScriptDataAfterClose == /\ IsScript /\ ScriptRest /\ ~NoDataAfterClose(Ev.outs)
+DevScriptDataAfterClose == /\ IsScript /\ ScriptRest /\ ~ScriptClose
                            /\ Dev("Dev_DataAfterClose", [ep |-> Ev.ep, after |-> FirstCloser(Ev.steps, 1)])
                            /\ UNCHANGED <<case, ref>>
 
